@@ -68,6 +68,9 @@ var corpus = []history{
 	{"open-readdir", func() []refcodec.Msg {
 		return tagged(rawpeer.Tattach(0, 1, ""), rawpeer.Twalkgetattr(0, 1, 2, "d"), rawpeer.Tlopen(0, 2, 0), rawpeer.Treaddir(0, 2, 0, 4000), rawpeer.Twalk(0, 2, 7, "x"), rawpeer.Tclunk(0, 2))
 	}},
+	{"clone-of-unlinked", func() []refcodec.Msg {
+		return tagged(rawpeer.Tattach(0, 1, ""), rawpeer.Twalk(0, 1, 2, "d", "x"), rawpeer.Twalk(0, 1, 4, "d"), rawpeer.Tunlinkat(0, 4, "x"), rawpeer.Twalk(0, 2, 5), rawpeer.Tclunk(0, 5), rawpeer.Tgetattr(0, 2), rawpeer.Tclunk(0, 2), rawpeer.Tgetattr(0, 4), rawpeer.Twalk(0, 4, 6))
+	}},
 	{"make-nodes", func() []refcodec.Msg {
 		return tagged(rawpeer.Tattach(0, 1, ""), rawpeer.Tmkdir(0, 1, "nd"), rawpeer.Tsymlink(0, 1, "sl", "f"), rawpeer.Twalk(0, 1, 2, "f"), rawpeer.Tlink(0, 1, 2, "hl"), rawpeer.Tmknod(0, 1, "fifo", 0o10644), rawpeer.Twalk(0, 1, 3, "sl"), rawpeer.Treadlink(0, 3), rawpeer.Twalk(0, 1, 4, "nd"), rawpeer.Tunlinkat(0, 1, "nd"), rawpeer.Tclunk(0, 4))
 	}},
@@ -270,7 +273,7 @@ func raceScenario(p raceParams) *fw.Scenario {
 }
 
 func run(ctx *fw.Ctx, rep *fw.Report) {
-	rep.Rule = "(b) for each of 8 corpus histories: the request stream is cut after EVERY byte offset (complete frames before the cut run in lock-step, then the partial frame, then EOF), and for every request index the client sends the request and hangs up at once (in-flight request, server writes failing from then on; additionally with server writes failing at every byte offset of the reply); (d) an operation held at a gate inside the backend || a request that drops the fid (clunk, remove, re-bind) || a second operation on the fid, with and without reading the replies before the hang-up; every Mazurkiewicz trace of each scenario from the cut/hang-up on (DPOR+sleep sets; fallback preemption bound 0,1); oracle: every handle closed exactly once at the end, every call on a handle happens-before its Close, Handle returned, every thread of the execution terminated (deadlock = a goroutine that can never finish); distinct = distinct (calls, handles) outcomes per scenario"
+	rep.Rule = "(b) for each of 9 corpus histories: the request stream is cut after EVERY byte offset (complete frames before the cut run in lock-step, then the partial frame, then EOF), and for every request index the client sends the request and hangs up at once (in-flight request, server writes failing from then on; additionally with server writes failing at every byte offset of the reply); (d) an operation held at a gate inside the backend || a request that drops the fid (clunk, remove, re-bind) || a second operation on the fid, with and without reading the replies before the hang-up; every Mazurkiewicz trace of each scenario from the cut/hang-up on (DPOR+sleep sets; fallback preemption bound 0,1); oracle: every handle closed exactly once at the end, every call on a handle happens-before its Close, Handle returned, every thread of the execution terminated (deadlock = a goroutine that can never finish); distinct = distinct (calls, handles) outcomes per scenario"
 	rep.Assumptions = append(rep.Assumptions, "independence classes of DESIGN §2.2", "requests before the cut run under the default schedule", "parts (a) request histories and (c) fault sequences of DESIGN §4 C05 are decided by the C04/C08 and C15 checks' lifecycle oracles")
 	var scs []*fw.Scenario
 	cuts, hangs := 0, 0
